@@ -61,9 +61,10 @@ class LinkTap:
         self.events = []          # (n, dir, seq, type, payload, info)
         self.problems = []
         self.keep = keep_payloads
-        self.kexinit = {C2S: None, S2C: None}     # raw payloads, current kex
-        self.kexmsgs = {}
-        self.neg = None
+        self.ex = []              # per exchange: kexinit/kexmsgs/neg
+        self.n_kexinit = {C2S: 0, S2C: 0}
+        self.n_newkeys = {C2S: 0, S2C: 0}
+        self.neg = None           # negotiation result of the latest exchange
         self.session_id = None
         self.kex_count = 0
         self.k_used = {C2S: 0, S2C: 0}
@@ -133,13 +134,18 @@ class LinkTap:
             self.window_msgs[d].append(t)
 
         if t == R.MSG_KEXINIT:
-            self.kexinit[d] = payload
+            i = self.n_kexinit[d]
+            self.n_kexinit[d] += 1
+            ex = self._ex(i)
+            ex['kexinit'][d] = payload
             self.in_kex[d] = True
-            if self.kexinit[C2S] is not None and \
-                    self.kexinit[S2C] is not None and self.neg is None:
-                self._negotiate()
+            if ex['kexinit'][C2S] is not None and \
+                    ex['kexinit'][S2C] is not None and ex['neg'] is None:
+                self._negotiate(i)
         elif R.MSG_KEX_FIRST <= t <= R.MSG_KEX_LAST:
-            self.kexmsgs.setdefault((d, t), payload)
+            i = self.n_kexinit[d] - 1
+            if i >= 0:
+                self._ex(i)['kexmsgs'].setdefault((d, t), payload)
         elif t == R.MSG_NEWKEYS:
             self.in_kex[d] = False
             self._newkeys(d)
@@ -150,18 +156,25 @@ class LinkTap:
 
     # ----- negotiation and keys
 
-    def _negotiate(self):
+    def _ex(self, i):
+        while len(self.ex) <= i:
+            self.ex.append({'kexinit': {C2S: None, S2C: None}, 'kexmsgs': {},
+                            'neg': None, 'hash_checked': False})
+        return self.ex[i]
+
+    def _negotiate(self, i):
+        ex = self._ex(i)
         try:
-            ci = R.parse_kexinit(self.kexinit[C2S])
-            si = R.parse_kexinit(self.kexinit[S2C])
-            self.neg = R.negotiate(ci, si)
+            ci = R.parse_kexinit(ex['kexinit'][C2S])
+            si = R.parse_kexinit(ex['kexinit'][S2C])
+            ex['neg'] = self.neg = R.negotiate(ci, si)
             self.neg_history.append(dict(self.neg))
-            if self.kex_count == 0:
+            if i == 0:
                 self.strict = self.neg['strict']
                 for dec in self.dec.values():
                     dec.strict = self.strict
         except R.RefError as exc:
-            self.neg = None
+            ex['neg'] = None
             self.problems.append({'kind': 'negotiation', 'error': str(exc)})
 
     def _kh_for(self, d):
@@ -175,8 +188,12 @@ class LinkTap:
 
     def _newkeys(self, d):
         kh = self._kh_for(d)
+        i = self.n_newkeys[d]
+        self.n_newkeys[d] += 1
+        ex = self._ex(i)
+        neg = ex['neg']
 
-        if kh is None or self.neg is None:
+        if kh is None or neg is None:
             self.dead[d] = True
             self.problems.append({'kind': 'no_keys', 'dir': d})
             # DirDecoder raises on NEWKEYS without next_prot; pre-empt
@@ -189,11 +206,11 @@ class LinkTap:
         if self.session_id is None:
             self.session_id = h
 
-        hashname = R.kex_hash_name(self.neg['kex'])
+        hashname = R.kex_hash_name(neg['kex'])
         c2s = d == C2S
         sfx = 'cs' if c2s else 'sc'
-        enc = self.neg['enc_' + sfx]
-        mac = self.neg['mac_' + sfx]
+        enc = neg['enc_' + sfx]
+        mac = neg['mac_' + sfx]
 
         if enc not in R.CIPHERS or (mac is not None and mac not in R.MACS
                                     and enc not in R.AEAD):
@@ -206,33 +223,28 @@ class LinkTap:
 
         self.dec[d].next_prot = R.make_protection(
             enc, mac, hashname, k_enc, h, self.session_id, c2s, False)
-        comp = R.Compression(self.neg['cmp_' + sfx], False)
+        comp = R.Compression(neg['cmp_' + sfx], False)
         if comp.delayed and self.success_end is not None:
             comp.activate()         # rekey after authentication
         self.dec[d].next_comp = comp
-        self.keysets.append((d, enc, mac, self.neg['cmp_' + sfx], k_enc, h))
+        self.keysets.append((d, enc, mac, neg['cmp_' + sfx], k_enc, h))
 
-        first = self.last_kh.get('kh') != kh
-        self.last_kh['kh'] = kh
-
-        if first:
-            self._check_hash(k_enc, h)
+        if not ex['hash_checked']:
+            ex['hash_checked'] = True
+            self._check_hash(ex, k_enc, h)
 
         # both directions switched: this exchange is over
         other = S2C if c2s else C2S
-        if self.k_used[other] == self.k_used[d]:
+        if self.n_newkeys[other] >= self.n_newkeys[d]:
             self.kex_count += 1
-            self.kexinit = {C2S: None, S2C: None}
-            self.kexmsgs = {}
-            self.neg = None
 
-    def _check_hash(self, k_enc, h):
+    def _check_hash(self, ex, k_enc, h):
         """Recompute H from what was on the wire (+ captured K)"""
 
         try:
-            kex = self.neg['kex']
+            kex = ex['neg']['kex']
             fam = R.kex_family(kex)
-            m = self.kexmsgs
+            m = ex['kexmsgs']
             msgs = {}
             k_s = None
 
@@ -274,8 +286,8 @@ class LinkTap:
 
             v_c = self.dec[C2S].version
             v_s = self.dec[S2C].version
-            mine = R.exchange_hash(kex, v_c, v_s, self.kexinit[C2S],
-                                   self.kexinit[S2C], k_s, msgs, k_enc)
+            mine = R.exchange_hash(kex, v_c, v_s, ex['kexinit'][C2S],
+                                   ex['kexinit'][S2C], k_s, msgs, k_enc)
             self.hashes_checked += 1
             if mine != h:
                 self.hash_mismatch += 1
